@@ -80,4 +80,30 @@ func (k *knownSet) match(sc *Scenario, v *Verdict) string {
 
 var knownMatchers = map[string]func(sc *Scenario, v *Verdict, params map[string]string) bool{}
 
-func (sc *Scenario) payloadSummary() interface{} { return sc.Aux }
+func (sc *Scenario) payloadSummary() interface{} {
+	if sc.C14 != nil {
+		c := cloneJSON(sc.C14)
+		if len(c.Arbitrary) > 300 {
+			c.Arbitrary = BStr(clip(string(c.Arbitrary), 300))
+		}
+		for i := range c.Entries {
+			if len(c.Entries[i].Val) > 100 {
+				c.Entries[i].Val = BStr(clip(string(c.Entries[i].Val), 100))
+			}
+			if len(c.Entries[i].Post) > 20 {
+				c.Entries[i].Post = "<long blank padding>"
+			}
+			for j := range c.Entries[i].Noise {
+				c.Entries[i].Noise[j] = clip(c.Entries[i].Noise[j], 60)
+			}
+		}
+		for j := range c.TailNoise {
+			c.TailNoise[j] = clip(c.TailNoise[j], 60)
+		}
+		if len(c.ChunksB) > 12 {
+			c.ChunksB = c.ChunksB[:12]
+		}
+		return c
+	}
+	return sc.Aux
+}
